@@ -3,7 +3,7 @@
    repaired by the D4 fix (a listed name that holds no value -- positioning pseudo-fields, Em -- is skipped).
    Totality: they are total functions; no attribute that holds no value is read (C20_repr_reads_only_set). *)
 From Coq Require Import ZArith List Bool.
-From Bisturi Require Import Base.Bytes Model.Value Model.Decl Model.Init Proofs.EqProofs.
+From Bisturi Require Import Base.Bytes Model.Value Model.Decl Model.Unpack Model.Codegen Model.Init Proofs.EqProofs Proofs.EqMore.
 Import ListNotations. Open Scope Z_scope.
 
 Theorem C20_ne_is_negation : forall fuel ct a b, pkt_neb fuel ct a b = negb (pkt_eqb fuel ct a b).
@@ -34,6 +34,31 @@ Proof. exact pkt_eqb_not_packet. Qed.
 Theorem C20_repr_reads_only_set : forall ct v f, In f (repr_names ct v) -> exists c s x, v = VPkt c s /\ slot_get s f = Some x.
 Proof. exact repr_names_set. Qed.
 
+(* == is symmetric and transitive (python's == on the values included: integers and booleans mix) *)
+Theorem C20_symmetric : forall fuel ct a b, pkt_eqb fuel ct a b = pkt_eqb fuel ct b a.
+Proof. exact pkt_eqb_sym. Qed.
+Theorem C20_transitive : forall fuel ct a b c,
+  pkt_eqb fuel ct a b = true -> pkt_eqb fuel ct b c = true -> pkt_eqb fuel ct a c = true.
+Proof. exact pkt_eqb_trans. Qed.
+(* "two packets parsed from the same bytes therefore always compare equal": for EVERY declaration, input and offset, with no
+   side condition (a parse hands out plain values only: absent optionals are None, skipped sequences []), whatever the nesting
+   budget of either parse, in both directions, and != is False *)
+Theorem C20_parsed_twice_equal : forall f1 f2 host ct raw c off v1 e1 t1 v2 e2 t2,
+  unpack_any f1 host ct raw c off = POk v1 e1 t1 -> unpack_any f2 host ct raw c off = POk v2 e2 t2 ->
+  v1 = v2 /\ e1 = e2 /\ t1 = t2 /\
+  exists k, forall k', (k <= k')%nat ->
+    pkt_eqb k' ct v1 v2 = true /\ pkt_eqb k' ct v2 v1 = true /\ pkt_neb k' ct v1 v2 = false /\ pkt_neb k' ct v2 v1 = false.
+Proof. exact parsed_twice_equal_any. Qed.
+(* the comparison does not depend on the nesting budget once it is large enough *)
+Theorem C20_fuel_irrelevant : forall fuel ct a b, pkt_eqb fuel ct a b = true -> pkt_eqb (S fuel) ct a b = true.
+Proof. exact pkt_eqb_fuel. Qed.
+Example C20_parsed_example :
+  unpack_any 3 true eqm_ct eqm_raw 0 0 =
+    POk eqm_v 13 [TChunk 0 [2]; TChunk 1 [1]; TChunk 2 [65; 0]; TChunk 4 [2]; TChunk 5 [0]; TChunk 6 [254; 255];
+                  TChunk 8 [7]; TChunk 9 [3]; TChunk 10 [66; 67; 0]] /\
+  pkt_eqb 4 eqm_ct eqm_v eqm_v = true /\ pkt_neb 4 eqm_ct eqm_v eqm_v = false.
+Proof. destruct eqm_example as (_ & H1 & _ & _ & _ & _ & H2 & H3). repeat split; assumption. Qed.
+
 Print Assumptions C20_ne_is_negation.
 Print Assumptions C20_structural.
 Print Assumptions C20_reflexive.
@@ -41,3 +66,8 @@ Print Assumptions C20_field_changed.
 Print Assumptions C20_other_class.
 Print Assumptions C20_not_a_packet.
 Print Assumptions C20_repr_reads_only_set.
+Print Assumptions C20_symmetric.
+Print Assumptions C20_transitive.
+Print Assumptions C20_parsed_twice_equal.
+Print Assumptions C20_fuel_irrelevant.
+Print Assumptions C20_parsed_example.
